@@ -34,6 +34,7 @@ import (
 	"net"
 	"os"
 	"regexp"
+	"regexp/syntax"
 	"strings"
 	"sync"
 	"sync/atomic"
@@ -703,6 +704,17 @@ func (i *AgentIPC) handleMembers(client *IPCClient, command string, seq uint64) 
 	return client.Send(&header, &resp)
 }
 
+// compileFullMatch compiles expr so that it only matches whole strings. The
+// expression is parsed on its own first, so that the anchors cannot combine
+// with it (top-level alternation, trailing backslash, unterminated \Q).
+func compileFullMatch(expr string) (*regexp.Regexp, error) {
+	parsed, err := syntax.Parse(expr, syntax.Perl)
+	if err != nil {
+		return nil, err
+	}
+	return regexp.Compile(`^(?:` + parsed.String() + `)$`)
+}
+
 func (i *AgentIPC) filterMembers(members []serf.Member, tags map[string]string,
 	status string, name string) ([]serf.Member, error) {
 
@@ -711,19 +723,19 @@ func (i *AgentIPC) filterMembers(members []serf.Member, tags map[string]string,
 	// Pre-compile all the regular expressions
 	tagsRe := make(map[string]*regexp.Regexp)
 	for tag, expr := range tags {
-		re, err := regexp.Compile(fmt.Sprintf("^%s$", expr))
+		re, err := compileFullMatch(expr)
 		if err != nil {
 			return nil, fmt.Errorf("Failed to compile regex: %v", err)
 		}
 		tagsRe[tag] = re
 	}
 
-	statusRe, err := regexp.Compile(fmt.Sprintf("^%s$", status))
+	statusRe, err := compileFullMatch(status)
 	if err != nil {
 		return nil, fmt.Errorf("Failed to compile regex: %v", err)
 	}
 
-	nameRe, err := regexp.Compile(fmt.Sprintf("^%s$", name))
+	nameRe, err := compileFullMatch(name)
 	if err != nil {
 		return nil, fmt.Errorf("Failed to compile regex: %v", err)
 	}
